@@ -25,6 +25,10 @@ pub enum Amf0DeserializationError {
     #[error("Failed to read byte buffer: {0}")]
     BufferReadError(#[from] io::Error),
 
+    /// Arrays and objects were nested deeper than this crate is willing to read
+    #[error("Arrays and objects are nested too deeply")]
+    NestingTooDeep,
+
     /// Strings in AMF0 are UTF-8 encoded, so if the bytes read are not valid
     /// UTF-8 this error will be raised.
     #[error("Failed to read a utf8 string from the byte buffer: {0}")]
